@@ -148,7 +148,7 @@ def run_mutant(rel, src_text, m_id, desc, line, props, jobs):
             return res
         outdir = os.path.join(tmp, "_verif_out")
         os.makedirs(outdir)
-        env2 = dict(os.environ, PYVC_REPO=tmp, PYVC_OUT=outdir, PYVC_JOBS=str(jobs))
+        env2 = dict(os.environ, PYVC_REPO=tmp, PYVC_OUT=outdir, PYVC_SWEEP_CACHE=os.path.join(outdir, ".sweep_cache"), PYVC_JOBS=str(jobs))
         exits, first = {}, None
         for p in props:
             rc, out = sh(f"./check {p}", cwd=CHECK_DIR, env=env2, timeout=600)
